@@ -91,7 +91,7 @@ PROPS = {
             {"engine": "pdbsim",
              "instrument": "internal/profiledb=locks;internal/profiledb/internal/filecachepb=calls:renameio\\.|os\\.WriteFile|os\\.Rename",
              "modreplace": {"github.com/google/renameio/v2@v2.0.0": ".=calls:^t\\.Write$|^t\\.Sync$|os\\.Rename|CloseAtomicallyReplace"},
-             "cfgs": ["", "nocrash"], "share": 3, "chunk": 1500},
+             "cfgs": ["", "nocrash", "toggle"], "share": 3, "chunk": 1500},
             {"engine": "bpbsim", "instrument": BPB_INSTRUMENT, "cfgs": [""], "share": 1, "chunk": 300, "det_trace": False},
         ],
         "quick": {"seconds": 40, "chunk": 1500, "runs": 60000},
